@@ -1,0 +1,65 @@
+//! Verification hooks (only compiled with the `verif` cargo feature).
+//!
+//! Pass-through wrappers around the crate-private write-cache type and the
+//! `transactional` helper, so that an external harness can drive them directly.
+//! No behaviour is added or changed; nothing here is reachable with the feature off.
+
+use crate::error::AnyResult;
+use crate::transactions::{transactional as inner_transactional, RepLog, StorageTransaction};
+use cosmwasm_std::{Order, Record, Storage};
+
+/// Write-cache layered over a base store (wrapper around the private `StorageTransaction`).
+pub struct Overlay<'a>(StorageTransaction<'a>);
+
+/// Replay log produced by [Overlay::prepare] (wrapper around the private `RepLog`).
+pub struct OverlayLog(RepLog);
+
+impl<'a> Overlay<'a> {
+    /// Creates a new write-cache over `base`.
+    pub fn new(base: &'a dyn Storage) -> Self {
+        Overlay(StorageTransaction::new(base))
+    }
+
+    /// Ends the cache and returns its replay log.
+    pub fn prepare(self) -> OverlayLog {
+        OverlayLog(self.0.prepare())
+    }
+}
+
+impl OverlayLog {
+    /// Replays the log into `base`.
+    pub fn commit(self, base: &mut dyn Storage) {
+        self.0.commit(base)
+    }
+}
+
+impl Storage for Overlay<'_> {
+    fn get(&self, key: &[u8]) -> Option<Vec<u8>> {
+        self.0.get(key)
+    }
+
+    fn range<'b>(
+        &'b self,
+        start: Option<&[u8]>,
+        end: Option<&[u8]>,
+        order: Order,
+    ) -> Box<dyn Iterator<Item = Record> + 'b> {
+        self.0.range(start, end, order)
+    }
+
+    fn set(&mut self, key: &[u8], value: &[u8]) {
+        self.0.set(key, value)
+    }
+
+    fn remove(&mut self, key: &[u8]) {
+        self.0.remove(key)
+    }
+}
+
+/// Pass-through to the crate-private `transactional` helper.
+pub fn transactional<F, T>(base: &mut dyn Storage, action: F) -> AnyResult<T>
+where
+    F: FnOnce(&mut dyn Storage, &dyn Storage) -> AnyResult<T>,
+{
+    inner_transactional(base, action)
+}
